@@ -27,7 +27,9 @@ package rfc7523
 //@   requires c != nil && c.Storage != nil && c.Config != nil
 //@   ensures [C15.grant-audience] err == nil ==> len(claims.Audience) > 0 && (exists k int :: 0 <= k && k < len(c.Config.GetTokenURLs(ctx)) && insl(claims.Audience, c.Config.GetTokenURLs(ctx)[k]))
 //@   ensures [C15.grant-expiry] err == nil ==> claims.Expiry != nil && claims.Expiry.Time() >= old($now)
+//@   ensures [C07.assertion-expiry] err == nil ==> claims.Expiry != nil && claims.Expiry.Time() >= old($now)
 //@   ensures [C15.grant-not-before] err == nil && claims.NotBefore != nil ==> claims.NotBefore.Time() < $now
+//@   ensures [C07.assertion-not-before] err == nil && claims.NotBefore != nil ==> claims.NotBefore.Time() < $now
 //@   ensures [C15.grant-issued-at] err == nil && !c.Config.GetGrantTypeJWTBearerIssuedDateOptional(ctx) ==> claims.IssuedAt != nil
 //@   ensures [C15.grant-max-lifetime] err == nil && claims.IssuedAt != nil ==> claims.Expiry.Time() - claims.IssuedAt.Time() <= c.Config.GetJWTMaxDuration(ctx)
 //@   ensures [C15.grant-max-lifetime] err == nil && claims.IssuedAt == nil ==> claims.Expiry.Time() - $now <= c.Config.GetJWTMaxDuration(ctx)
